@@ -100,7 +100,7 @@ def judge(cid, src, inputs, mode, feats, reduce=True):
       wsrc = src
   out['detail'] = r['detail'] + '\n--- program ---\n' + stream.body_of(wsrc)
   out['witness'] = {'src': wsrc, 'inputs': winputs, 'mode': mode, 'feats': feats}
-  out['mechanism'] = kfclass.classify_c01(wsrc, r['detail'])
+  out['mechanism'] = kfclass.classify_c01(wsrc, r['detail'], winputs, mode, feats)
   return out
 
 
